@@ -569,6 +569,9 @@ func Check(r *vrep.Report, callsV []uni.Call, tsos []uni.TSOEvent, recs []*work.
 		ttlShown  uint64 // smallest non-zero ttl the client was shown for a lock of this txn
 		shown     bool
 		shownZero bool // the client was shown a lock of this txn with ttl 0 ("roll back unconditionally")
+		// statusTTL: ttl of the primary lock as the newest CheckTxnStatus response reported it (live lock); hasStatusTTL
+		statusTTL    uint64
+		hasStatusTTL bool
 	}
 	st := map[ck]*status{}
 	get := func(c int, t uint64) *status {
@@ -656,6 +659,9 @@ func Check(r *vrep.Report, callsV []uni.Call, tsos []uni.TSOEvent, recs []*work.
 					noteKeyErr(c.Client, resp.Error)
 					break
 				}
+				if resp.CommitVersion == 0 && resp.LockTtl != 0 {
+					s.statusTTL, s.hasStatusTTL = resp.LockTtl, true
+				}
 				if resp.CommitVersion != 0 {
 					s.commits[resp.CommitVersion] = true
 				} else if resp.LockTtl == 0 {
@@ -738,6 +744,21 @@ func Check(r *vrep.Report, callsV []uni.Call, tsos []uni.TSOEvent, recs []*work.
 					if oracle.ExtractPhysical(newest) < oracle.ExtractPhysical(req.LockTs)+int64(s.ttlShown) {
 						viol("5:rollback-if-not-exist-before-expiry", fmt.Sprintf("client %d: CheckTxnStatus(txn %d) sets rollback_if_not_exist although the lock (ttl %d) has not outlived its ttl on the resolver's clock (newest ts %d)", c.Client, req.LockTs, s.ttlShown, newest), c)
 					}
+				}
+			}
+		case *kvrpcpb.CheckSecondaryLocksRequest:
+			// async-commit recovery rolls back secondaries that are not prewritten yet: a resolver may only start it
+			// once the primary lock has outlived the ttl the store reported for it, on the resolver's own clock
+			v := views[req.StartVersion]
+			if v != nil && v.owner == c.Client {
+				break
+			}
+			s := get(c.Client, req.StartVersion)
+			if s.hasStatusTTL && !inGC(c.Seq) && len(s.commits) == 0 && !s.rollback {
+				r.Count("rule5_check_secondary_evaluated", 1)
+				if newest := newestTSO(c.Client, c.Seq); newest != 0 &&
+					oracle.ExtractPhysical(newest) < oracle.ExtractPhysical(req.StartVersion)+int64(s.statusTTL) {
+					viol("5:async-recovery-of-live-lock", fmt.Sprintf("client %d: CheckSecondaryLocks(txn %d) sent although the primary lock (ttl %d ms as reported by the store) has not outlived its ttl on the resolver's clock (newest ts %d)", c.Client, req.StartVersion, s.statusTTL, newest), c)
 				}
 			}
 		case *kvrpcpb.PessimisticRollbackRequest:
